@@ -3,7 +3,7 @@
 # copies /verif to /tmp/seedlab/verif and checks out /repo's HEAD + the patch to /tmp/seedlab/repo, rewrites the
 # hard-coded /repo paths in the copy, runs the checks there.   usage: seedlab.sh <seed-id> <tier> <check ids...>
 sid=$1; tier=$2; shift 2
-LAB=/tmp/seedlab
+LAB=${SEEDLAB:-/tmp/seedlab}
 mkdir -p $LAB
 if [ ! -d $LAB/repo ]; then git -C /repo worktree add -q --detach $LAB/repo HEAD || exit 3; fi
 git -C $LAB/repo checkout -q --detach $(git -C /repo rev-parse HEAD) 2>/dev/null
